@@ -56,7 +56,7 @@ func AppendLink(list []*Link, l *Link) []*Link {
 		return list
 	}
 	for _, v := range list {
-		if v.Key == l.Key {
+		if v != nil && v.Key == l.Key {
 			*v = *l // copy in place
 			return list
 		}
